@@ -35,8 +35,11 @@ def contains_call(e, suffix):
 
 
 def is_line(e):
-    """rooted at the item of the loop's iterator (`next`)"""
-    return contains_call(e, "Iterator>::next") or contains_call(e, "::next")
+    """rooted at the item of the loop's iterator (`next`), or at the text decoded from the bytes of a read buffer
+    (`read_until` style loops; that the buffer holds exactly the current line is C13 R13.2's buffer-reset rule)"""
+    if contains_call(e, "Iterator>::next") or contains_call(e, "::next"):
+        return True
+    return any(contains_call(e, s) for s in ("String::from_utf8_lossy", "str::from_utf8", "String::from_utf8", "from_utf8_unchecked"))
 
 
 def message_of_line(e):
